@@ -16,7 +16,8 @@ m=json.load(open('MANIFEST.json'))
 jsonschema.validate(m, json.load(open('/root/.vp/MANIFEST.schema.json')))
 es=json.load(open('/root/.vp/EVIDENCE.schema.json'))
 for c in m['checks']:
-    e=json.load(open(c['evidence_file']))
+    import os
+    e=json.load(open(os.path.join('evidence', os.path.basename(c['evidence_file']))))  # of THIS tree (a snapshot run validates its own files)
     jsonschema.validate(e, es)
     cov=e['coverage']
     assert cov['obligations']>=1 and cov['discharged']==cov['obligations'], (c['property_id'], cov['obligations'], cov['discharged'])
